@@ -924,3 +924,52 @@ pub fn div_euclid_neg_index_panics(a: &[u8; 4], x: i32) -> u8 {
     }
     a[x.div_euclid(64) as usize]
 }
+
+// the sibling bit loop: `x &= x - 1` clears the lowest set bit
+pub fn low_bit_loop_safe(mut x: u16) -> Vec<u8> {
+    let mut v = Vec::new();
+    while x != 0 {
+        v.push(x.trailing_zeros() as u8);
+        x &= x - 1;
+    }
+    v
+}
+pub fn low_bit_loop_index_safe(a: &[u8; 16], mut x: u16) -> u8 {
+    let mut s = 0u8;
+    while x != 0 {
+        s ^= a[x.trailing_zeros() as usize];
+        x &= x - 1;
+    }
+    s
+}
+pub fn low_bit_loop_index_panics(a: &[u8; 15], mut x: u16) -> u8 {
+    let mut s = 0u8;
+    while x != 0 {
+        s ^= a[x.trailing_zeros() as usize];
+        x &= x - 1;
+    }
+    s
+}
+pub fn low_bit_loop_stuck_panics(mut x: u16) -> u32 {
+    // `x &= x` never clears anything: the loop does not terminate for x != 0
+    let mut n = 0u32;
+    while x != 0 {
+        n = n.wrapping_add(1);
+        x &= x;
+    }
+    n
+}
+pub fn ne_zero_sub_safe(x: u32) -> u32 {
+    if x != 0 {
+        x - 1
+    } else {
+        0
+    }
+}
+pub fn ne_one_sub_panics(x: u32) -> u32 {
+    if x != 1 {
+        x - 1
+    } else {
+        0
+    }
+}
